@@ -309,8 +309,24 @@ func TestDrive_C15(t *testing.T) {
 	if thorough {
 		trials = 100000
 	}
-	bad := stressCancelAttribution(4 * trials)
-	w.Add(func(id int) string { return fmt.Sprintf("CaseStress %d 3 %d %d", id, 4*trials, bad) },
+	// (eight loops side by side: more interleavings per second, also on a loaded machine)
+	var bad int
+	{
+		var mu sync.Mutex
+		var wg sync.WaitGroup
+		for g := 0; g < 8; g++ {
+			wg.Add(1)
+			go func() {
+				defer wg.Done()
+				b := stressCancelAttribution(4 * trials)
+				mu.Lock()
+				bad += b
+				mu.Unlock()
+			}()
+		}
+		wg.Wait()
+	}
+	w.Add(func(id int) string { return fmt.Sprintf("CaseStress %d 3 %d %d", id, 32*trials, bad) },
 		map[string]any{"stress": "Cancel() against a zero-delay retry loop; bad = executions that ended cancelled but did not report ErrExecutionCanceled", "trials": trials, "bad": bad}, true, "stress-cancel")
 	bad2 := stressIsDone(trials)
 	w.Add(func(id int) string { return fmt.Sprintf("CaseStress %d 4 %d %d", id, trials, bad2) },
